@@ -373,7 +373,7 @@ def native_build(ob, wd):
     for pat, stub in (ob.get('redirect') or {}).items():
         for h in resolve_names(ll, [pat]):
             # call sites only: "@name(" not preceded by "define ... "
-            text = re.sub(r'^(?!define)(.*)@%s\(' % re.escape(h), lambda m: m.group(1) + '@' + stub + '(', text, flags=re.M)
+            text = re.sub(r'^(?!define|declare)(.*)@%s\(' % re.escape(h), lambda m: m.group(1) + '@' + stub + '(', text, flags=re.M)
     if ob.get('cancel_oracle'):
         text = re.sub(r'(%[-\w.]+) = load atomic i8, i8\* (%[-\w.]+) [^\n]*', r'\1 = call i8 @vf_atomic_load_8(i8* \2)', text)
         if 'declare i8 @vf_atomic_load_8' not in text: text += '\ndeclare i8 @vf_atomic_load_8(i8*)\n'
